@@ -1029,6 +1029,10 @@ func (p *Prog) freshRef(v ssa.Value, d int, seen map[ssa.Value]bool) bool {
 		if pk, fn := StdCallee(x.Common().StaticCallee()); (pk == "slices" && (fn == "Clone" || fn == "Concat")) || (pk == "maps" && fn == "Clone") {
 			return true
 		}
+		// slices.Grow / slices.Clip hand back the slice they were given (Grow: or a fresh, larger copy of it)
+		if pk, fn := StdCallee(x.Common().StaticCallee()); pk == "slices" && (fn == "Grow" || fn == "Clip") && len(x.Common().Args) >= 1 {
+			return p.freshRef(x.Common().Args[0], d+1, seen)
+		}
 		return p.freshResult(x.Common(), 0, d, seen)
 	case *ssa.Extract:
 		if c, ok := x.Tuple.(*ssa.Call); ok {
